@@ -3,7 +3,7 @@ import os, json, shutil, struct, random
 from hypothesis import strategies as st
 from vlib import hyp, fsgen, core, tool, run as vrun, e4ref, corrupt
 LEVEL = 'exploration'
-KINDS = ['sparse_super', 'sparse_super2-2', 'sparse_super2-1', 'sparse_super2-0', 'meta_bg', 'no-sparse', 'ext2', 'ext3', 'flex', '32bit', 'bigalloc']
+KINDS = ['sparse_super', 'sparse_super2-2', 'sparse_super2-1', 'sparse_super2-0', 'meta_bg', 'no-sparse', 'ext2', 'ext3', 'flex', '32bit', 'bigalloc', 'meta_bg-ext2']
 HIST = ['mke2fs', 'resize-grow', 'resize-shrink', 'tune2fs-uuid', 'tune2fs-csum-off', 'tune2fs-csum-on', 'tune2fs-label', 'e2fsck-repair', 'resize-grow+tune2fs-uuid', 'tune2fs-isize', 'resize-shrink+e2fsck-repair']
 RULE = ('Hypothesis draws a geometry (block size 1k/2k/4k, blocks-per-group 256..default, 1..~140 groups incl. powers of 3/5/7 and their neighbours, layout kind out of %s, resize= reservation) and a producer history out of %s; '
         'oracle (1): the groups holding a superblock copy are exactly those the format prescribes (independent rule in e4ref.has_super) and every copy carries the current geometry/feature fields; '
@@ -32,6 +32,7 @@ def mk(case):
     feats = []; extra = ['-g', str(bpg)]; fstype = 'ext4'; E = []
     if kind.startswith('sparse_super2'): feats += ['sparse_super2', '^resize_inode']; E.append('num_backup_sb=' + kind[-1])
     elif kind == 'meta_bg': feats += ['meta_bg', '^resize_inode']
+    elif kind == 'meta_bg-ext2': feats += ['meta_bg', '^resize_inode']; fstype = 'ext2'      # no group checksums: no BLOCK_UNINIT flag hides a misplaced descriptor copy
     elif kind == 'no-sparse': feats += ['^sparse_super', '^resize_inode']
     elif kind == 'ext2': fstype = 'ext2'
     elif kind == 'ext3': fstype = 'ext3'
